@@ -190,7 +190,15 @@ pub struct Params {
     pub free_seeds: u64,
 }
 
+/// a hanging implementation costs a full horizon per execution: once non-termination has been reported this many
+/// times the verdict is settled and further inputs are skipped (counted)
+const ENOUGH_TERMINATION_REPORTS: u64 = 12;
+
 pub fn check_louvain(b: &Built, rec: &Recorder, c: &mut Counters, p: &Params) -> u64 {
+    if rec.occurrences("termination") >= ENOUGH_TERMINATION_REPORTS {
+        c.inc("inputs_skipped_after_enough_termination_reports");
+        return 0;
+    }
     let mut calls = 0u64;
     let weighted_modes: Vec<bool> = if b.weighted { vec![true, false] } else { vec![false] };
     for &weighted in &weighted_modes {
@@ -511,6 +519,9 @@ fn large_louvain_stage(tier: &str, rec: &Recorder, c: &mut Counters) {
                 let ew: Vec<(usize, usize, f64)> = edges.iter().map(|e| (e.0, e.1, if e.2.is_nan() { 1.0 } else { e.2 })).collect();
                 for seed in [0u64, 1] {
                     for res in [None, Some(2.0)] {
+                        if rec.occurrences("termination") >= ENOUGH_TERMINATION_REPORTS {
+                            continue;
+                        }
                         c.inc("large_graph_runs");
                         let case = format!("LL:{cliques}x{size}:{}:{}:seed={seed}:res={res:?}", if directed { "directed" } else { "undirected" }, if weighted { "w" } else { "u" });
                         let hz = 100 + 10 * n;
